@@ -9,8 +9,10 @@ LEVEL_NOTE_COMMON = ("Trusted: g++ 12, its sanitizer runtimes, libquadmath; the 
                      "from the property text, not copied from the library). Claim = held on the executions described in the evidence file.")
 
 # id -> (technique, level text, design section, extra note)
-PDE_TECH = ("runtime monitor with independent oracle: real evaluators driven with thousands of independently drawn admissible parameter vectors x points, "
-            "each value compared with the governing operator applied by 2nd-order Taylor jets (quad precision + running error bound) to the documented field")
+PDE_TECH = ("runtime monitor with independent oracle: real evaluators driven with thousands of admissible parameter vectors x points in one process per shard "
+            "(fresh draws, zeroed families / special values, incremental changes of 1-3 parameters, masa_init_param defaults, partial defaults, magnitudes stretched over decades; "
+            "points incl. axes and 10^-7..10^-1 from an axis; evaluators in random order; several handles), each value compared with the governing operator applied by "
+            "2nd-order Taylor jets (quad precision + running error bound) to the documented field; roundoff bound 8 u e (generic inputs) / 256 u e (structured inputs)")
 CHECKS = {
     "C01": (PDE_TECH, "Exploration: 12 heat solutions x 2 precisions; source == rho cp(T) T_t - div(k(T) grad T) of the documented T by jets; exact_t == T; tolerance 2^20 u e.", "2/C01", ""),
     "C02": (PDE_TECH, "Exploration: 8 Euler-family solutions (Cartesian steady/transient, axisymmetric steady/transient) x 2 precisions; conservative inviscid operators on the Roy-type fields; every exact_* compared.", "2/C02", ""),
@@ -19,20 +21,20 @@ CHECKS = {
     "C05": (PDE_TECH + "; recorded deviation model for the f_v1 finding", "Exploration: rans_sa, free-shear and wall-bounded FANS-SA; full SA closure (f_v1 differentiated, modified S~, f_w, conservative diffusion, c_b2 term); free-shear 2-argument forms == 3-argument at t=0.", "2/C05", ""),
     "C06": (PDE_TECH + "; invariant monitor (species sources sum to d(rho u)/dx) and call-recording callbacks", "Exploration: reacting Euler with 6 user callbacks K_eq(T); kinetics written from concentrations; callback must be invoked exactly once at masa_eval_exact_t(x) (bitwise).", "2/C06", ""),
     "C07": (PDE_TECH + " and with an 8th-order finite difference of the API's own exact field; out-of-range indices", "Exploration: every gradient the 6 solutions provide, every direction, vs jet gradient (tight) and vs FD of masa_eval_exact_* (loose); 9 invalid indices incl. INT_MIN/INT_MAX must give -1 / NaN at every point.", "2/C07", ""),
-    "C09": ("runtime monitor: same workload as C01-C07 judged at the precision tolerance K u e (K=8) against the quad reference; double vs long double at identical inputs; finiteness of every value; -O0 and (thorough) -O2 builds",
+    "C09": ("runtime monitor: same workload as C01-C07 judged at the precision tolerance K u e (K=8 generic, 256 structured inputs) against the quad reference; parameters must be stored bit-exactly; double vs long double at identical inputs; finiteness of every value; library built at g++ -O0 and (thorough) g++ -O2, g++ -O3, clang++ -O2",
             "Exploration: all 31 PDE solutions, both precisions; a double temporary/literal in a long double path shows as ratio 5..2000 against K=8; observed maxima per evaluator recorded in the evidence.", "2/C09", ""),
     "C08": ("runtime monitor: exact Riemann solver / conjugate-normal closed forms in quad precision as reference, plus reference-free invariant monitors (jump conditions, isentropy, quadrature, proportionality) over parameter and data-vector histories",
-            "Exploration: Sod for Gamma in (1.05,3) in all five regions with front-location probes; cp_normal with data vectors of length 1..50 re-set between evaluations, evaluators in random order, moments k=0..20.", "2/C08",
+            "Exploration: Sod for Gamma in (1.02,12), t over five decades, all five regions, structured samples at both sides of every front and around x/t = 0, front-location probes, accuracy bound 2^14 u; cp_normal with data vectors of length 1..50 re-set between evaluations, evaluators in random order, moments k=0..20.", "2/C08",
             "Sod's states are taken as the library documents them in sod.cpp (rho 1 / 0.125, p 1 / 0.125)."),
-    "C20": ("runtime monitor, reference-free: two handles in one process, shared parameters copied, specialising parameters zeroed and verified, sources of the two solutions compared (oracle supplies only the roundoff scale)",
+    "C20": ("runtime monitor, reference-free: two handles in one process under four (re-)initialisation/selection histories, masa_get_name must answer for the solution each handle was given, shared parameters copied, specialising parameters zeroed and verified, sources of the two solutions compared (oracle supplies only the roundoff scale)",
             "Exploration: 19 reductions (3D->2D, NS->Euler, transient->steady, unsteady->steady heat, variable->constant properties) x 2 precisions x random parameters/points.", "2/C20", ""),
     "C10": ("runtime monitor over recorded histories: evaluator-call log keyed by (handle, parameter version, evaluator, arguments) checked for bit-identical repeats; fresh twin handle must reproduce logged bits; full parameter snapshot compared with the sequential model after every evaluator call",
             "Exploration: long random histories (both error-handling builds, both precisions) over every catalogue entry, weighted to the stateful ones (wall-bounded FANS-SA, Sod, cp_normal); half of all evaluator calls are repeats after arbitrary other operations.", "2/C10", ""),
-    "C11": ("runtime monitor: sequential reference map per handle compared step by step (get == model bitwise; whole snapshot after every mutator; unknown names; init_param/purge/sanity/display/vectors) + systematic sweep over every name of every solution",
+    "C11": ("runtime monitor: sequential reference map per handle compared step by step (get == model bitwise; whole snapshot after every mutator; unknown names; init_param/purge/sanity/display/vectors) + systematic sweep over every name of every solution + reference sums for the vector-parameter solution (radiation evaluators must use every entry of the vectors last set, lengths 1..64)",
             "Exploration: random op sequences on 35 solutions x 2 precisions x 2 builds, plus the exhaustive-over-names sweep (803 names per precision, incl. all 205 power-law parameters).", "2/C11", ""),
     "C12": ("runtime monitor: bounded-exhaustive enumeration of all op sequences (length <= 4 quick / <= 6 thorough) over a 12-symbol alphabet, each in a forked child from the empty registry, plus long random histories over 6 handles x 2 precisions; every step compared with the model (listing, name, dimension, selection hook, parameter isolation)",
             "Exploration with an exhaustive bounded part: 7,540 (quick) / 1.09 M (thorough) sequences enumerated completely; random part covers re-initialisation, two handles of one type, cross-precision independence.", "2/C12", ""),
-    "C14": ("runtime monitor, complete enumeration: every name masa_printid lists in both precisions initialised and checked against spec/catalogue.txt (name echo, sanity, init_param, dimension, every documented evaluator finite and non-sentinel at 16 interior points)",
+    "C14": ("runtime monitor, complete enumeration: every name masa_printid lists in both precisions initialised under three handle policies (one re-used handle, three handles round-robin, fresh handle per entry) and checked against spec/catalogue.txt (name echo, sanity, init_param, dimension, every documented evaluator finite and non-sentinel at interior points)",
             "Exhaustive over the finite catalogue of the build under test (37 entries x 2 precisions x 2 builds).", "2/C14", "An entry unknown to the spec makes the run inconclusive, not green."),
     "C15": ("runtime monitor, complete enumeration: every (solution, overload, precision) triple outside the documented capability set called at 4 random argument tuples; sentinel bits, error line, parameter snapshot, registry and process survival checked",
             "Exhaustive over the finite (solution x 117 overloads x 2 precisions) space: 8,208 unprovided triples.", "2/C15", ""),
@@ -40,13 +42,13 @@ CHECKS = {
             "Exploration: 132 functions x 2 precisions x 2 builds pre-init; >1000 mid-session failures per run with registry/selection/parameters compared and the history continued.", "2/C16", ""),
     "C17": ("runtime monitor: C and C++ calls interleaved on the same handles of random histories; every extern C wrapper compared bit for bit with the C++ <double> overload its name stands for; statuses compared in states where the C++ status is non-zero; nm cross-check of the wrapper table",
             "Exploration: all 80 evaluator wrappers + 14 core entry points, thousands of comparisons per run, both builds.", "2/C17", ""),
-    "C18": ("runtime/compiled-artefact monitor: the Fortran compiler's own C view of every bind(C) interface (gcc -fc-prototypes) compared with the DWARF types of the compiled C definitions (gdb ptype) and nm; a generated Fortran program using the real module executes every interface and is compared bit for bit with the C++ API under ASan; header-vs-library link-and-run probe; masa.i lexical check",
+    "C18": ("runtime/compiled-artefact monitor: the Fortran compiler's own C view of every bind(C) interface (gcc -fc-prototypes) compared with the DWARF types of the compiled C definitions (gdb ptype) and nm; a generated Fortran program using the real module executes every interface and is compared bit for bit with the C++ API under ASan; header-vs-library link-and-run probe; masa.i lexical check and the generated header preprocessed as C with and without SWIG's macros (same declarations required)",
             "Complete over the finite set of 91 bind(C) interfaces and 73 extern C declarations; 530 executed Fortran-vs-C++ comparisons.", "2/C18",
-            "SWIG clause covered lexically only: swig is not installed in this sandbox, so the Python module can be neither built nor run."),
-    "C19": ("sanitizers as oracle: ASan+UBSan+LSan builds (reports fatal) and valgrind memcheck over hostile API histories; conservation monitor on the MASA_VERIF hook (live objects == registered handles) after every operation; allocator counters for heap growth under repeated masa_init",
+            "SWIG clause: swig is not installed in this sandbox, so the Python module can be neither built nor run; what SWIG would read (masa.i directives, masa.h under -DSWIG) is compared with the C compiler's view."),
+    "C19": ("sanitizers as oracle: g++ 12 and clang 14 ASan+UBSan+LSan builds (reports fatal; clang adds -fsanitize=function,float-cast-overflow, library and harness both instrumented) and valgrind memcheck over hostile API histories; conservation monitor on the MASA_VERIF hook (live objects == registered handles) after every operation; allocator counters for heap growth under repeated masa_init",
             "Exploration: 2x36x36 ordered init pairs, 3 random init orders on a dirtied heap, vector length changes, C arrays n=0..40 in exact-size buffers, uninitialised name buffer, extreme arguments/indices, and the C10-C17 workloads again under the tools.", "2/C19",
             "A clean run is 'no report on these histories', not memory safety."),
-    "C13": ("runtime monitor: random decorated/near-miss name strings vs independent normaliser; throw observed in-process (exceptions build) and exit status of forked child (exit() build); registry compared before/after",
+    "C13": ("runtime monitor: random decorated/near-miss name strings vs independent normaliser, through the C++ and the C entry points; handles (incl. leading/trailing blanks) must be registered and selectable verbatim; throw observed in-process (exceptions build) and exit status of forked child (exit() build); registry compared before/after",
             "Exploration: thousands of generated strings per run (valid decorations incl. adjacent/leading/trailing separator runs; 9 kinds of near-miss), both precisions, both error-handling builds; oracle is a 3-line normaliser.",
             "2/C13", ""),
 }
@@ -85,13 +87,13 @@ def main():
         "setup_cmd": "python3 -m vlib.setup",
         "hooks": {
             "guard": "MASA_VERIF",
-            "enable": "vlib/build.py compiles /repo/src/*.cpp itself with -DMASA_VERIF (flavours plain/opt/exc/asan/exc-asan, cache keyed by a hash of the source tree)",
+            "enable": "vlib/build.py compiles /repo/src/*.cpp itself with -DMASA_VERIF (flavours plain/opt/opt3/clang/exc/asan/exc-asan/clang-asan, cache keyed by a hash of the source tree)",
             "baseline_off_cmd": "vlib/baseline_off.sh",
             "source_commits": hook_commits,
             "add_only": True,
         },
         "engines": [{"name": "masa-runtime-monitors", "path": "/verif/check", "serves_properties": sorted(CHECKS),
-                     "kind_free_text": "runtime monitoring: C++ drivers linked with the library rebuilt from the working tree (plain, -O2, exceptions, ASan+UBSan flavours), reference models/oracles in the harness, Python orchestration, known-findings matching"}],
+                     "kind_free_text": "runtime monitoring: C++ drivers linked with the library rebuilt from the working tree (g++ -O0/-O2/-O3, clang -O2, exceptions, g++ and clang ASan+UBSan flavours), reference models/oracles in the harness, Python orchestration, known-findings matching"}],
         "checks": checks,
         "not_applicable": na,
         "notes": "All checks: ./check <id> --tier quick|thorough, seed from VERIF_SEED. Exit 0 held / 1 VIOLATION / 2 inconclusive (harness failure, floor not met, watchdog). Known findings: /verif/known_findings.json.",
